@@ -368,24 +368,39 @@ def nestAll : List CqlTy → Bool
   | t :: ts => nest t && nestAll ts
 end
 
-theorem collSize_count (p : Nat) (hp : p ≥ 3) (n : Nat) : collSize p (n:Int) = countFrame p n := by
-  have hp2 : p > 2 := by omega
-  simp only [collSize, countFrame, hp2, hp, if_true]
-  by_cases h : n < 2^31
-  · rw [if_neg (by omega), if_pos h, C12Frame.encInt_nat n h]
-  · rw [if_pos (by omega), if_neg h]
+theorem collSize_count (p : Nat) (n : Nat) : collSize p (n:Int) = countFrame p n := by
+  by_cases hp : p ≥ 3
+  · have hp2 : p > 2 := by omega
+    simp only [collSize, countFrame, hp2, hp, if_true]
+    by_cases h : n < 2^31
+    · rw [if_neg (by omega), if_pos h, C12Frame.encInt_nat n h]
+    · rw [if_pos (by omega), if_neg h]
+  · rw [C12Frame.collSize_v2 p (by omega)]
+    simp only [countFrame, hp, if_false]
+    by_cases h : n ≤ 65535
+    · rw [if_pos h, if_pos (by omega)]
+    · rw [if_neg h, if_neg (by omega)]
 
-theorem collItem_some (p : Nat) (hp : p ≥ 3) (b : Bytes) : collItem p (some b) = elemFrame p (some b) := by
-  have hp2 : p > 2 := by omega
-  simp only [collItem, collSize, elemFrame, hp2, hp, if_true]
-  by_cases h : b.length < 2^31
-  · rw [if_neg (by omega), if_pos h, encInt_eq, tcEnc_toS32]; rfl
-  · rw [if_pos (by omega), if_neg h]; rfl
+theorem collItem_some (p : Nat) (b : Bytes) : collItem p (some b) = elemFrame p (some b) := by
+  by_cases hp : p ≥ 3
+  · have hp2 : p > 2 := by omega
+    simp only [collItem, collSize, elemFrame, hp2, hp, if_true]
+    by_cases h : b.length < 2^31
+    · rw [if_neg (by omega), if_pos h, encInt_eq, tcEnc_toS32]; rfl
+    · rw [if_pos (by omega), if_neg h]; rfl
+  · simp only [collItem, C12Frame.collSize_v2 p (by omega), elemFrame, hp, if_false]
+    by_cases h : b.length ≤ 65535
+    · rw [if_pos h, if_pos (by omega)]; rfl
+    · rw [if_neg h, if_neg (by omega)]; rfl
 
 theorem collItem_none (p : Nat) (hp : p ≥ 3) : collItem p none = some [255, 255, 255, 255] := by
   have hp2 : p > 2 := by omega
   have : encInt (toS 32 (-1)) = [255, 255, 255, 255] := by decide
   simp [collItem, collSize, hp2, this]
+
+theorem elemFrame_len (p : Nat) (b e : Bytes) (h : elemFrame p (some b) = some e) : b.length ≤ e.length := by
+  simp only [elemFrame] at h
+  split at h <;> split at h <;> cases h <;> simp [List.length_append]
 
 def ConfElems (p : Nat) (et : CqlTy) (n : Nat) (r : MRes) (ocs : Option (List CqlVal)) : Prop :=
   match r with
@@ -393,67 +408,90 @@ def ConfElems (p : Nat) (et : CqlTy) (n : Nat) (r : MRes) (ocs : Option (List Cq
   | .err => True
   | _ => False
 
-theorem elems_conf (p : Nat) (hp : p ≥ 3) (et : CqlTy) :
+/-- one framed collection item: null only from protocol 3 (`hnn`: under protocol ≤ 2 the value is not null) -/
+def ConfItem (p : Nat) (t : CqlTy) (r : MRes) (oc : Option CqlVal) : Prop :=
+  match r with
+  | .ok item => (match collItem p item with
+      | none => True
+      | some e => e.length < 2^31 → ∃ c, oc = some c ∧ elemOrNull p c.isNull (specEnc p t c) = some e)
+  | .err => True
+  | _ => False
+
+theorem item_conf (p : Nat) (t : CqlTy) (r : MRes) (oc : Option CqlVal) (h : Conf p t r oc)
+    (hnn : p ≤ 2 → oc ≠ some .null) : ConfItem p t r oc := by
+  unfold ConfItem
+  cases r with
+  | ok item =>
+    cases item with
+    | none =>
+      by_cases hp : p ≥ 3
+      · simp only [collItem_none p hp]
+        intro _
+        exact ⟨.null, h, by simp [elemOrNull, CqlVal.isNull, elemFrame, hp]⟩
+      · exact absurd h (hnn (by omega))
+    | some b =>
+      simp only [collItem_some p]
+      cases he : elemFrame p (some b) with
+      | none => trivial
+      | some e =>
+        simp only
+        intro hl
+        have := elemFrame_len p b e he
+        obtain ⟨c, hc, hnn', hs⟩ := h (by omega)
+        exact ⟨c, hc, by simp [elemOrNull, hnn', hs, he]⟩
+  | err => trivial
+  | crash => exact h
+  | unmodelled => exact h
+
+theorem elems_conf (p : Nat) (et : CqlTy) :
     ∀ vs : List GoVal, (∀ v ∈ vs, Conf p et (marshal p et v) (interp et v)) →
+      (p ≤ 2 → ∀ v ∈ vs, interp et v ≠ some .null) →
       ConfElems p et vs.length (marshalElems p et vs) (interpList et vs)
-  | [], _ => by
+  | [], _, _ => by
     simp [ConfElems, marshalElems, interpList, specEncElems]
-  | v :: vs, h => by
+  | v :: vs, h, hnn => by
     have hv := h v (List.mem_cons_self ..)
-    have ih := elems_conf p hp et vs (fun w hw => h w (List.mem_cons_of_mem _ hw))
+    have ih := elems_conf p et vs (fun w hw => h w (List.mem_cons_of_mem _ hw))
+      (fun hp w hw => hnn hp w (List.mem_cons_of_mem _ hw))
+    have iv := item_conf p et _ _ hv (fun hp => hnn hp v (List.mem_cons_self ..))
     rw [marshalElems, interpList]
-    cases hm : marshal p et v with
+    generalize marshal p et v = rv at iv ⊢
+    generalize interp et v = ov at iv ⊢
+    generalize marshalElems p et vs = rr at ih ⊢
+    generalize interpList et vs = ocs at ih ⊢
+    cases rv with
     | ok item =>
-      rw [hm] at hv
-      cases item with
-      | none =>
-        simp only [Conf] at hv
-        simp only [collItem_none p hp]
-        cases hr : marshalElems p et vs with
+      simp only [ConfItem] at iv ⊢
+      cases hce : collItem p item with
+      | none => trivial
+      | some e =>
+        rw [hce] at iv
+        simp only at iv ⊢
+        cases rr with
         | ok ob =>
-          rw [hr] at ih
           cases ob with
-          | none => exact ih
+          | none => exact ih.elim
           | some rest =>
             simp only [ConfElems] at ih ⊢
             intro hl
-            obtain ⟨cs, hcs, hlen, hspec⟩ := ih (by simp at hl; omega)
-            refine ⟨.null :: cs, by simp [hv, hcs], by simp [hlen], ?_⟩
-            simp [specEncElems, elemOrNull, CqlVal.isNull, elemFrame, hp, hspec]
+            simp only [List.length_append] at hl
+            obtain ⟨c, hc, hsc⟩ := iv (by omega)
+            obtain ⟨cs, hcs, hlen, hspec⟩ := ih (by omega)
+            refine ⟨c :: cs, by simp [hc, hcs], by simp [hlen], ?_⟩
+            simp [specEncElems, hsc, hspec]
         | err => trivial
-        | crash => rw [hr] at ih; exact ih
-        | unmodelled => rw [hr] at ih; exact ih
-      | some b =>
-        simp only [Conf] at hv
-        simp only [collItem_some p hp, elemFrame, hp, if_true]
-        by_cases hb : b.length < 2^31
-        · obtain ⟨c, hc, hnn, hs⟩ := hv hb
-          rw [if_pos hb]
-          cases hr : marshalElems p et vs with
-          | ok ob =>
-            rw [hr] at ih
-            cases ob with
-            | none => exact ih
-            | some rest =>
-              simp only [ConfElems] at ih ⊢
-              intro hl
-              obtain ⟨cs, hcs, hlen, hspec⟩ := ih (by simp at hl; omega)
-              refine ⟨c :: cs, by simp [hc, hcs], by simp [hlen], ?_⟩
-              simp [specEncElems, elemOrNull, hnn, hs, elemFrame, hp, hb, hspec]
-          | err => trivial
-          | crash => rw [hr] at ih; exact ih
-          | unmodelled => rw [hr] at ih; exact ih
-        · rw [if_neg hb]; trivial
+        | crash => exact ih.elim
+        | unmodelled => exact ih.elim
     | err => trivial
-    | crash => rw [hm] at hv; exact hv
-    | unmodelled => rw [hm] at hv; exact hv
+    | crash => exact iv.elim
+    | unmodelled => exact iv.elim
 
 /-- count + elements: a list or a set -/
-theorem seq_conf (p : Nat) (hp : p ≥ 3) (et : CqlTy) (n : Nat) (r : MRes) (ocs : Option (List CqlVal))
+theorem seq_conf (p : Nat) (et : CqlTy) (n : Nat) (r : MRes) (ocs : Option (List CqlVal))
     (h : ConfElems p et n r ocs) :
     Conf p (.list et) (wrapSeq p n r) (ocs.map CqlVal.list) ∧ Conf p (.set et) (wrapSeq p n r) (ocs.map CqlVal.list) := by
   unfold wrapSeq
-  rw [collSize_count p hp]
+  rw [collSize_count p]
   cases hc : countFrame p n with
   | none => exact ⟨trivial, trivial⟩
   | some c =>
@@ -472,54 +510,25 @@ theorem seq_conf (p : Nat) (hp : p ≥ 3) (et : CqlTy) (n : Nat) (r : MRes) (ocs
     | crash => exact h.elim
     | unmodelled => exact h.elim
 
-/-- one framed collection item -/
-def ConfItem (p : Nat) (t : CqlTy) (r : MRes) (oc : Option CqlVal) : Prop :=
-  match r with
-  | .ok item => (match collItem p item with
-      | none => True
-      | some e => e.length < 2^31 → ∃ c, oc = some c ∧ elemOrNull p c.isNull (specEnc p t c) = some e)
-  | .err => True
-  | _ => False
-
-theorem item_conf (p : Nat) (hp : p ≥ 3) (t : CqlTy) (r : MRes) (oc : Option CqlVal) (h : Conf p t r oc) :
-    ConfItem p t r oc := by
-  unfold ConfItem
-  cases r with
-  | ok item =>
-    cases item with
-    | none =>
-      simp only [collItem_none p hp]
-      intro _
-      exact ⟨.null, h, by simp [elemOrNull, CqlVal.isNull, elemFrame, hp]⟩
-    | some b =>
-      simp only [collItem_some p hp, elemFrame, hp, if_true]
-      by_cases hb : b.length < 2^31
-      · rw [if_pos hb]
-        intro _
-        obtain ⟨c, hc, hnn, hs⟩ := h hb
-        exact ⟨c, hc, by simp [elemOrNull, hnn, hs, elemFrame, hp, hb]⟩
-      · rw [if_neg hb]; trivial
-  | err => trivial
-  | crash => exact h
-  | unmodelled => exact h
-
 def ConfPairs (p : Nat) (kt vt : CqlTy) (n : Nat) (r : MRes) (ocs : Option (List (CqlVal × CqlVal))) : Prop :=
   match r with
   | .ok (some body) => body.length < 2^31 → ∃ cs, ocs = some cs ∧ cs.length = n ∧ specEncPairs p kt vt cs = some body
   | .err => True
   | _ => False
 
-theorem pairs_conf (p : Nat) (hp : p ≥ 3) (kt vt : CqlTy) :
+theorem pairs_conf (p : Nat) (kt vt : CqlTy) :
     ∀ kvs : List (GoVal × GoVal),
       (∀ kv ∈ kvs, Conf p kt (marshal p kt kv.1) (interp kt kv.1) ∧ Conf p vt (marshal p vt kv.2) (interp vt kv.2)) →
+      (p ≤ 2 → ∀ kv ∈ kvs, interp kt kv.1 ≠ some .null ∧ interp vt kv.2 ≠ some .null) →
       ConfPairs p kt vt kvs.length (marshalPairs p kt vt kvs) (interpPairs kt vt kvs)
-  | [], _ => by
+  | [], _, _ => by
     simp [ConfPairs, marshalPairs, interpPairs, specEncPairs]
-  | (k, v) :: r, h => by
+  | (k, v) :: r, h, hnn => by
     obtain ⟨hk, hv⟩ := h (k, v) (List.mem_cons_self ..)
-    have ih := pairs_conf p hp kt vt r (fun w hw => h w (List.mem_cons_of_mem _ hw))
-    have ik := item_conf p hp kt _ _ hk
-    have iv := item_conf p hp vt _ _ hv
+    have ih := pairs_conf p kt vt r (fun w hw => h w (List.mem_cons_of_mem _ hw))
+      (fun hp w hw => hnn hp w (List.mem_cons_of_mem _ hw))
+    have ik := item_conf p kt _ _ hk (fun hp => (hnn hp (k, v) (List.mem_cons_self ..)).1)
+    have iv := item_conf p vt _ _ hv (fun hp => (hnn hp (k, v) (List.mem_cons_self ..)).2)
     rw [marshalPairs, interpPairs]
     simp only [] at hk hv
     generalize marshal p kt k = rk at ik ⊢
@@ -567,11 +576,11 @@ theorem pairs_conf (p : Nat) (hp : p ≥ 3) (kt vt : CqlTy) :
     | crash => exact ik.elim
     | unmodelled => exact ik.elim
 
-theorem map_conf (p : Nat) (hp : p ≥ 3) (kt vt : CqlTy) (n : Nat) (r : MRes) (ocs : Option (List (CqlVal × CqlVal)))
+theorem map_conf (p : Nat) (kt vt : CqlTy) (n : Nat) (r : MRes) (ocs : Option (List (CqlVal × CqlVal)))
     (h : ConfPairs p kt vt n r ocs) :
     Conf p (.map kt vt) (wrapSeq p n r) (ocs.map CqlVal.map) := by
   unfold wrapSeq
-  rw [collSize_count p hp]
+  rw [collSize_count p]
   cases hc : countFrame p n with
   | none => trivial
   | some c =>
@@ -773,6 +782,61 @@ theorem excludedPairs_mem (p : Nat) (kt vt : CqlTy) : ∀ kvs, excludedPairs p k
     · exact ⟨h.1.1.1, h.1.1.2⟩
     · exact excludedPairs_mem p kt vt r h.2 kv hv
 
+/-- a Go value whose documented meaning is null is in the `nullish` class (what `excludedElems` / `excludedPairs` keep
+    out of collections under protocol ≤ 2) -/
+theorem interp_null : ∀ (v : GoVal) (t : CqlTy), interp t v = some .null → nullish v = true
+  | .ptr w, t, h => by
+    have := interp_null w t (by simpa [interp] using h)
+    simpa [nullish, derefAll] using this
+  | .nilptr, _, _ => by simp [nullish, derefAll, marshalsNil]
+  | .nil, _, _ => by simp [nullish, derefAll, GoVal.isNil]
+  | .unset, t, h => by cases t <;> simp [interp, interpScalar] at h
+  | .int k n v, t, h => by cases t <;> simp [interp, interpScalar, CqlTy.isIntCol] at h <;> (repeat' split at h) <;> simp at h
+  | .str n s, t, h => by cases n <;> cases t <;> simp [interp, interpScalar, CqlTy.isIntCol, CqlTy.isText] at h
+  | .bytes n isNil b, t, h => by
+    cases t <;> simp [interp, interpScalar, CqlTy.isIntCol, CqlTy.isText] at h <;>
+      first | (simp [nullish, derefAll, marshalsNil, GoVal.isNil, h]; done) | (split at h <;> simp at h)
+  | .bool n b, t, h => by cases t <;> simp [interp, interpScalar] at h
+  | .f32 n x, t, h => by cases t <;> simp [interp, interpScalar] at h
+  | .f64 n x, t, h => by cases t <;> simp [interp, interpScalar] at h
+  | .big v, t, h => by cases t <;> simp [interp, interpScalar] at h
+  | .dec u s, t, h => by cases t <;> simp [interp, interpScalar] at h
+  | .time a b, t, h => by cases t <;> simp [interp, interpScalar] at h
+  | .dur n, t, h => by cases t <;> simp [interp, interpScalar, CqlTy.isIntCol] at h
+  | .cqldur m d n, t, h => by cases t <;> simp [interp, interpScalar] at h
+  | .uuid b, t, h => by cases t <;> simp [interp, interpScalar] at h
+  | .arr16 b, t, h => by cases t <;> simp [interp, interpScalar] at h
+  | .ip b, t, h => by cases t <;> simp [interp, interpScalar] at h <;> (repeat' split at h) <;> simp at h
+  | .slice isNil vs, t, h => by
+    cases t <;> simp [interp, interpScalar] at h <;>
+      first | (simp [nullish, derefAll, marshalsNil, GoVal.isNil, h]; done) | (split at h <;> simp at h)
+  | .array vs, t, h => by cases t <;> simp [interp, interpScalar] at h <;> (split at h <;> simp at h)
+  | .ifaces vs, t, h => by cases t <;> simp [interp, interpScalar] at h <;> (split at h <;> simp at h)
+  | .map isNil kvs, t, h => by
+    cases t <;> simp [interp, interpScalar] at h <;> simp [nullish, derefAll, marshalsNil, GoVal.isNil, h]
+  | .mapset ks, t, h => by cases t <;> simp [interp, interpScalar] at h
+  | .struct vs, t, h => by cases t <;> simp [interp, interpScalar] at h <;> (split at h <;> simp at h)
+  | .udtmap i ns vs, t, h => by cases t <;> simp [interp, interpScalar, interpUdt] at h
+  | .udtstruct ns vs, t, h => by cases t <;> simp [interp, interpScalar, interpUdt] at h
+
+theorem excludedElems_nullish (p : Nat) (et : CqlTy) : ∀ vs, excludedElems p et vs = false →
+    ∀ v ∈ vs, (decide (p ≤ 2) && nullish v) = false
+  | [], _, _, hv => by cases hv
+  | a :: r, h, v, hv => by
+    simp only [excludedElems, Bool.or_eq_false_iff] at h
+    rcases List.mem_cons.mp hv with rfl | hv
+    · exact h.1.2
+    · exact excludedElems_nullish p et r h.2 v hv
+
+theorem excludedPairs_nullish (p : Nat) (kt vt : CqlTy) : ∀ kvs, excludedPairs p kt vt kvs = false →
+    ∀ kv ∈ kvs, (decide (p ≤ 2) && (nullish kv.1 || nullish kv.2)) = false
+  | [], _, _, hv => by cases hv
+  | (a, b) :: r, h, kv, hv => by
+    simp only [excludedPairs, Bool.or_eq_false_iff] at h
+    rcases List.mem_cons.mp hv with rfl | hv
+    · exact h.1.2
+    · exact excludedPairs_nullish p kt vt r h.2 kv hv
+
 theorem allconf_of (p : Nat) : ∀ (ts : List CqlTy) (vs : List GoVal),
     (∀ v ∈ vs, ∀ t, nest t = true → wf v → documented t v = true → excluded p t v = false →
       Conf p t (marshal p t v) (interp t v)) →
@@ -787,7 +851,7 @@ theorem allconf_of (p : Nat) : ∀ (ts : List CqlTy) (vs : List GoVal),
     exact ⟨H v (List.mem_cons_self ..) t hn.1 hw.1 hd.1 hx.1,
       allconf_of p ts vs (fun w hw' => H w (List.mem_cons_of_mem _ hw')) hn.2 hw.2 hd.2 hx.2⟩
 
-theorem conf_aux (p : Nat) (hp : p ≥ 3) : ∀ (n : Nat) (g : GoVal) (t : CqlTy), sizeOf g ≤ n → nest t = true → wf g →
+theorem conf_aux (p : Nat) : ∀ (n : Nat) (g : GoVal) (t : CqlTy), sizeOf g ≤ n → nest t = true → wf g →
     documented t g = true → excluded p t g = false → Conf p t (marshal p t g) (interp t g) := by
   intro n
   induction n with
@@ -907,7 +971,10 @@ theorem conf_aux (p : Nat) (hp : p ≥ 3) : ∀ (n : Nat) (g : GoVal) (t : CqlTy
         have hel : ∀ v ∈ vs, Conf p et (marshal p et v) (interp et v) := fun v hv =>
           ih v et (by have := List.sizeOf_lt_of_mem hv; simp at hs; omega) hn' (wfAll_mem vs hw v hv)
             (documentedAll_mem et vs hd v hv) (excludedElems_mem p et vs hx v hv)
-        have hc := seq_conf p hp et _ _ _ (elems_conf p hp et vs hel)
+        have hc := seq_conf p et _ _ _ (elems_conf p et vs hel (fun hp2 v hv hnull => by
+          have := interp_null v et hnull
+          have hxx := excludedElems_nullish p et vs hx v hv
+          simp [hp2, this] at hxx))
         simp only [marshal, interp]
         cases isNil <;> first | exact hc.1 | exact hc.2 | simp [Conf]
       | set et =>
@@ -916,7 +983,10 @@ theorem conf_aux (p : Nat) (hp : p ≥ 3) : ∀ (n : Nat) (g : GoVal) (t : CqlTy
         have hel : ∀ v ∈ vs, Conf p et (marshal p et v) (interp et v) := fun v hv =>
           ih v et (by have := List.sizeOf_lt_of_mem hv; simp at hs; omega) hn' (wfAll_mem vs hw v hv)
             (documentedAll_mem et vs hd v hv) (excludedElems_mem p et vs hx v hv)
-        have hc := seq_conf p hp et _ _ _ (elems_conf p hp et vs hel)
+        have hc := seq_conf p et _ _ _ (elems_conf p et vs hel (fun hp2 v hv hnull => by
+          have := interp_null v et hnull
+          have hxx := excludedElems_nullish p et vs hx v hv
+          simp [hp2, this] at hxx))
         simp only [marshal, interp]
         cases isNil <;> first | exact hc.1 | exact hc.2 | simp [Conf]
       | tuple ts =>
@@ -936,7 +1006,10 @@ theorem conf_aux (p : Nat) (hp : p ≥ 3) : ∀ (n : Nat) (g : GoVal) (t : CqlTy
         have hel : ∀ v ∈ vs, Conf p et (marshal p et v) (interp et v) := fun v hv =>
           ih v et (by have := List.sizeOf_lt_of_mem hv; simp at hs; omega) hn' (wfAll_mem vs hw v hv)
             (documentedAll_mem et vs hd v hv) (excludedElems_mem p et vs hx v hv)
-        have hc := seq_conf p hp et _ _ _ (elems_conf p hp et vs hel)
+        have hc := seq_conf p et _ _ _ (elems_conf p et vs hel (fun hp2 v hv hnull => by
+          have := interp_null v et hnull
+          have hxx := excludedElems_nullish p et vs hx v hv
+          simp [hp2, this] at hxx))
         simp only [marshal, interp]
         first | exact hc.1 | exact hc.2
       | set et =>
@@ -945,7 +1018,10 @@ theorem conf_aux (p : Nat) (hp : p ≥ 3) : ∀ (n : Nat) (g : GoVal) (t : CqlTy
         have hel : ∀ v ∈ vs, Conf p et (marshal p et v) (interp et v) := fun v hv =>
           ih v et (by have := List.sizeOf_lt_of_mem hv; simp at hs; omega) hn' (wfAll_mem vs hw v hv)
             (documentedAll_mem et vs hd v hv) (excludedElems_mem p et vs hx v hv)
-        have hc := seq_conf p hp et _ _ _ (elems_conf p hp et vs hel)
+        have hc := seq_conf p et _ _ _ (elems_conf p et vs hel (fun hp2 v hv hnull => by
+          have := interp_null v et hnull
+          have hxx := excludedElems_nullish p et vs hx v hv
+          simp [hp2, this] at hxx))
         simp only [marshal, interp]
         first | exact hc.1 | exact hc.2
       | tuple ts =>
@@ -965,7 +1041,10 @@ theorem conf_aux (p : Nat) (hp : p ≥ 3) : ∀ (n : Nat) (g : GoVal) (t : CqlTy
         have hel : ∀ v ∈ vs, Conf p et (marshal p et v) (interp et v) := fun v hv =>
           ih v et (by have := List.sizeOf_lt_of_mem hv; simp at hs; omega) hn' (wfAll_mem vs hw v hv)
             (documentedAll_mem et vs hd v hv) (excludedElems_mem p et vs hx v hv)
-        have hc := seq_conf p hp et _ _ _ (elems_conf p hp et vs hel)
+        have hc := seq_conf p et _ _ _ (elems_conf p et vs hel (fun hp2 v hv hnull => by
+          have := interp_null v et hnull
+          have hxx := excludedElems_nullish p et vs hx v hv
+          simp [hp2, this] at hxx))
         simp only [marshal, interp]
         first | exact hc.1 | exact hc.2
       | set et =>
@@ -974,7 +1053,10 @@ theorem conf_aux (p : Nat) (hp : p ≥ 3) : ∀ (n : Nat) (g : GoVal) (t : CqlTy
         have hel : ∀ v ∈ vs, Conf p et (marshal p et v) (interp et v) := fun v hv =>
           ih v et (by have := List.sizeOf_lt_of_mem hv; simp at hs; omega) hn' (wfAll_mem vs hw v hv)
             (documentedAll_mem et vs hd v hv) (excludedElems_mem p et vs hx v hv)
-        have hc := seq_conf p hp et _ _ _ (elems_conf p hp et vs hel)
+        have hc := seq_conf p et _ _ _ (elems_conf p et vs hel (fun hp2 v hv hnull => by
+          have := interp_null v et hnull
+          have hxx := excludedElems_nullish p et vs hx v hv
+          simp [hp2, this] at hxx))
         simp only [marshal, interp]
         first | exact hc.1 | exact hc.2
       | tuple ts =>
@@ -994,7 +1076,10 @@ theorem conf_aux (p : Nat) (hp : p ≥ 3) : ∀ (n : Nat) (g : GoVal) (t : CqlTy
         have hel : ∀ v ∈ vs, Conf p et (marshal p et v) (interp et v) := fun v hv =>
           ih v et (by have := List.sizeOf_lt_of_mem hv; simp at hs; omega) hn' (wfAll_mem vs hw v hv)
             (documentedAll_mem et vs hd v hv) (excludedElems_mem p et vs hx v hv)
-        have hc := seq_conf p hp et _ _ _ (elems_conf p hp et vs hel)
+        have hc := seq_conf p et _ _ _ (elems_conf p et vs hel (fun hp2 v hv hnull => by
+          have := interp_null v et hnull
+          have hxx := excludedElems_nullish p et vs hx v hv
+          simp [hp2, this] at hxx))
         simp only [marshal, interp]
         first | exact hc.1 | exact hc.2
       | set et =>
@@ -1003,7 +1088,10 @@ theorem conf_aux (p : Nat) (hp : p ≥ 3) : ∀ (n : Nat) (g : GoVal) (t : CqlTy
         have hel : ∀ v ∈ vs, Conf p et (marshal p et v) (interp et v) := fun v hv =>
           ih v et (by have := List.sizeOf_lt_of_mem hv; simp at hs; omega) hn' (wfAll_mem vs hw v hv)
             (documentedAll_mem et vs hd v hv) (excludedElems_mem p et vs hx v hv)
-        have hc := seq_conf p hp et _ _ _ (elems_conf p hp et vs hel)
+        have hc := seq_conf p et _ _ _ (elems_conf p et vs hel (fun hp2 v hv hnull => by
+          have := interp_null v et hnull
+          have hxx := excludedElems_nullish p et vs hx v hv
+          simp [hp2, this] at hxx))
         simp only [marshal, interp]
         first | exact hc.1 | exact hc.2
       | _ => first | (simp [nest] at hn; done) | (simp [documented, documentedScalar] at hd; done)
@@ -1032,7 +1120,11 @@ theorem conf_aux (p : Nat) (hp : p ≥ 3) : ∀ (n : Nat) (g : GoVal) (t : CqlTy
             have hx' := excludedPairs_mem p kt vt kvs hx kv hv
             exact ⟨ih kv.1 kt (by simp at hs; omega) hn.1 hw'.1 hd'.1 hx'.1,
                    ih kv.2 vt (by simp at hs; omega) hn.2 hw'.2 hd'.2 hx'.2⟩
-        have hc := map_conf p hp kt vt _ _ _ (pairs_conf p hp kt vt kvs hel)
+        have hc := map_conf p kt vt _ _ _ (pairs_conf p kt vt kvs hel (fun hp2 kv hv => by
+          have hxx := excludedPairs_nullish p kt vt kvs hx kv hv
+          simp only [hp2, decide_true, Bool.true_and, Bool.or_eq_false_iff] at hxx
+          exact ⟨fun hnull => by have := interp_null kv.1 kt hnull; simp [this] at hxx,
+                 fun hnull => by have := interp_null kv.2 vt hnull; simp [this] at hxx⟩))
         simp only [marshal, interp]
         cases isNil <;> first | exact hc | simp [Conf]
       | _ => first | (simp [nest] at hn; done) | (simp [documented, documentedScalar] at hd; done)
@@ -1042,8 +1134,8 @@ theorem conf_aux (p : Nat) (hp : p ≥ 3) : ∀ (n : Nat) (g : GoVal) (t : CqlTy
       cases t <;> first | (simp [nest] at hn; done) | (simp [documented, documentedScalar] at hd; done)
 
 /-- CONFORMANCE BY STRUCTURAL INDUCTION -/
-theorem marshal_conforms (p : Nat) (hp : p ≥ 3) (t : CqlTy) (g : GoVal) (hn : nest t = true) (hw : wf g)
+theorem marshal_conforms (p : Nat) (t : CqlTy) (g : GoVal) (hn : nest t = true) (hw : wf g)
     (hd : documented t g = true) (hx : excluded p t g = false) : Conf p t (marshal p t g) (interp t g) :=
-  conf_aux p hp (sizeOf g) g t (Nat.le_refl _) hn hw hd hx
+  conf_aux p (sizeOf g) g t (Nat.le_refl _) hn hw hd hx
 
 end C12Nest
